@@ -17,12 +17,14 @@ MANIFEST = dict(
          'refinement of the position/fuel kernel to an item-level stack machine); the FKM detector model equals the HCM case list on the '
          'interior reversals (fkm_is_hcm, unbounded); conservation of turning points for 4-point, 3-point and FKM (Permutation, unbounded); every '
          'index reported by the four-point AND the three-point detector addresses the reported value (unbounded, from a scanner invariant and position-range invariants); residual irreducible; three-point = four-point '
-         '(same multiset of cycles incl. indices, same residual) proved bounded ({0..3}, length <= 8, vm_compute), the general McInnes-Meehan '
-         'statement kept as a Definition.  Implementation output is compared with the verified specs inside Coq on every run.',
+         'for EVERY signal (threepoint_same_as_fourpoint, unbounded: run3 [s] = run4 [s], i.e. the same cycles incl. indices even in the same '
+         'order, the same residual and residual index -- on a stack of the shape maintained by the three-point machine the three-point and the '
+         'four-point test decide alike, so the two item-level machines run in lock step); the bounded sweep ({0..3}, length <= 8, vm_compute, '
+         'multiset comparison) is kept as an independent evaluation of the model.  Implementation output is compared with the verified specs inside Coq on every run.',
     note=common.TB_NOTE + 'no axioms under any C02 theorem. Hand-written model tied by correspondence; the HCM rule is taken in the form of '
          'the FKM non-linear guideline\'s case list (the form the detector documents), see DESIGN 6/C02; integer-valued signals '
-         '(float rounding outside); three-point equivalence and three-point conservation beyond the bound rest on the per-run oracle comparison.',
-    technique='Coq proof (refinement, induction, Permutation; bounded vm_compute for 3pt=4pt) + vm_compute oracle comparison',
+         '(float rounding outside).',
+    technique='Coq proof (refinement, invariants, induction, Permutation; every clause unbounded) + vm_compute oracle comparison',
     design='6/C02')
 
 REQ = rf.REQ + ['From PL Require Import Rainflow.Spec Rainflow.SpecEqb.']
